@@ -15,8 +15,9 @@ EXPLANATION = (
     "addressed substream and is followed on every path by the `len > max_buffer_len` test on that same buffer; on the overflow edge the "
     "MaxBufferBehaviour match either records blocking_stream = Some(id) (Block) or (ResetStream) replaces the state by Reset{buf: same "
     "buffer} and queues one Frame::Reset{id}. Block: poll_read_frame polls the socket only on the blocking_stream == None edge and returns "
-    "Pending otherwise; blocking_stream is cleared only on the `blocking_stream == Some(id)` edge of a read that then removes a frame from "
-    "that very substream's buffer. No loss: `buffer` returns without pushing only on the unknown-substream / not-open-for-reading edges; every "
+    "Pending otherwise; blocking_stream is cleared only on the `blocking_stream == Some(id)` edge and only where space in that very substream's "
+    "buffer is then freed (a frame is removed from it, or drop_stream releases the whole entry), and every function that releases a "
+    "substreams entry for good performs that test (otherwise the block could never be cleared again). No loss: `buffer` returns without pushing only on the unknown-substream / not-open-for-reading edges; every "
     "Data arm of the two frame loops either hands the frame to `buffer` exactly once or returns it to the reader.")
 ASSUMPTIONS = ["liveness of blocked readers / wake-ups is not decided",
                "run-time counting over histories is not executed: the bounds follow from the per-path guards by induction",
@@ -24,7 +25,7 @@ ASSUMPTIONS = ["liveness of blocked readers / wake-ups is not decided",
 
 SELFTEST = [
     {"mutation": "seeded/C26: poll_read_stream `self.blocking_stream == Some(id)` -> `self.blocking_stream.is_some()`",
-     "caught_by": "block/blocking_stream cleared only by a read of the blocking substream itself"},
+     "caught_by": "block/blocking_stream cleared only on `blocking_stream == Some(<this substream>)`"},
     {"mutation": "on_open: `self.substreams.len() >= max_substreams` -> `>`", "caught_by": "substreams/new-key insert only below max_substreams (on_open)"},
     {"mutation": "poll_open_stream: limit test deleted", "caught_by": "substreams/new-key insert only below max_substreams (poll_open_stream)"},
     {"mutation": "on_open: over-limit path returns Ok(None) without queuing the Reset frame", "caught_by": "on_open/over the limit: exactly one Reset frame is queued"},
@@ -35,7 +36,8 @@ SELFTEST = [
     {"mutation": "recv_buf_open: RecvClosed => Some(buf)", "caught_by": "buffer/recv_buf_open hands out a buffer exactly for Open and SendClosed"},
     {"mutation": "poll_next_stream: Data arm drops the frame (no buffer call)", "caught_by": "no-loss/poll_next_stream: Data frame buffered exactly once"},
     {"mutation": "on_close: SendClosed arm inserts under a fresh key (id.next())", "caught_by": "substreams/new-key insert only below max_substreams (on_close) + floor:new-key inserts"},
-    {"mutation": "poll_read_stream: fast path returns buf[0].clone() without removing it", "caught_by": "block/unblocking is always followed by taking a frame out of that substream's buffer"},
+    {"mutation": "poll_read_stream: fast path returns buf[0].clone() without removing it", "caught_by": "block/unblocking is always followed by freeing space in that substream's buffer"},
+    {"mutation": "(pre-fix code) drop_stream does not clear blocking_stream when the dropped substream is the blocking one", "caught_by": "block/releasing a substream's entry also releases the block it may hold (drop_stream)"},
 ]
 
 
@@ -241,14 +243,39 @@ def _check(ctx, prog):
             return False
         edges = b.guard_edges(pred)
         ok = bool(edges) and b.must_pass_edges(s.bb, edges)
-        ctx.ob("block", "blocking_stream cleared only by a read of the blocking substream itself", ok, s.loc(),
+        ctx.ob("block", "blocking_stream cleared only on `blocking_stream == Some(<this substream>)`", ok, s.loc(),
                "dominated by `blocking_stream == Some(%s)`" % "/".join(sorted(keys)) if ok else "cleared on a path that does not establish blocking_stream == Some(<the stream being read>)")
         if ok:
             k = sorted(keys)[0]
+            # space is freed in that substream's buffer: a frame is taken out of it, or the whole entry (buffer) is released
             rem = [x for x in b.call_sites(r"SmallVec::remove$|SmallVec::pop$|SmallVec::drain$") if
                    render(b.site_expr(x)[2][0]) == "libp2p_mplex::io::SubstreamState::recv_buf(std::collections::HashMap::get_mut(self.substreams, %s)@Some.0)" % k]
-            ok2 = bool(rem) and b.must_pass_nodes(b.succ[s.bb], b.return_blocks(), lib.bbs(rem))
-            ctx.ob("block", "unblocking is always followed by taking a frame out of that substream's buffer", ok2, s.loc(), "buf.remove(0) on substreams[%s] on every path after the reset" % k)
+            rel = [x for x in b.call_sites(r"HashMap::remove$") if render(b.site_expr(x)) == "std::collections::HashMap::remove(self.substreams, %s)" % k and not lib_mux.substream_inserts(b)]
+            ok2 = bool(rem + rel) and b.must_pass_nodes(b.succ[s.bb], b.return_blocks(), lib.bbs(rem + rel))
+            ctx.ob("block", "unblocking is always followed by freeing space in that substream's buffer", ok2, s.loc(),
+                   "%s on substreams[%s] on every path after the reset" % ("buf.remove(0)" if rem else "substreams.remove(&id) (entry released)" if rel else "nothing", k))
+    # every release of a substream entry (remove without re-insert on some path) tests whether that substream holds the block
+    releasing = []
+    for b in prog.bodies(MP):
+        rms = [x for x in b.call_sites(r"HashMap::remove$") if render(b.site_expr(x)[2][0]) == "self.substreams"]
+        if rms and not lib_mux.substream_inserts(b):
+            releasing.extend((b, x) for x in rms)
+    ctx.floor("block", "functions that release a substreams entry for good", releasing, 1)
+    for b, x in releasing:
+        ctx.use(b)
+        key = render(b.site_expr(x)[2][1])
+        tests = [bi for bi in sorted(b.live) if b.switch_info(bi) and render(b.switch_info(bi)[0]) == "<std::option::Option as std::cmp::PartialEq>::eq(self.blocking_stream, std::option::Option::Some{0: %s})" % key]
+        ok = bool(tests) and (b.must_pass_nodes([0], [x.bb], tests) or b.must_pass_nodes(b.succ[x.bb], b.return_blocks(), tests))
+        clr = [w for w in b.field_write_sites("blocking_stream") if w.si is not None and render(b.site_expr(w)) == "std::option::Option::None{}"]
+        if ok:
+            tedge = [t for t, ls in b.switch_info(tests[0])[1].items() if "true" in ls]
+            fedge = [t for t, ls in b.switch_info(tests[0])[1].items() if "false" in ls]
+            # on the true edge the block is cleared before control re-joins the other edge / returns
+            join = b.reachable(fedge)
+            ok = bool(clr) and all(c.bb in b.reachable(tedge) for c in clr[:1]) and b.must_pass_nodes(tedge, [j for j in join if j in b.reachable(tedge)][:1] or b.return_blocks(), lib.bbs(clr))
+        ctx.ob("block", "releasing a substream's entry also releases the block it may hold (%s)" % b.short.split("::")[-1], ok, x.loc(),
+               "substreams.remove(&%s) with no re-insert: `if blocking_stream == Some(%s) { blocking_stream = None }` on every such path" % (key, key) if ok else
+               "substreams.remove(&%s) releases the entry (and its full buffer) but blocking_stream may still name it: nothing can clear it afterwards and poll_read_frame stays Pending for every substream" % key)
 
     # ------------------------------------------------------------------ no data frame is dropped by the frame loops
     for name in ("poll_next_stream", "poll_read_stream"):
